@@ -7,13 +7,14 @@ Local Open Scope Z_scope.
 
 (* the time claims of a decoded payload are valid at [now]:
    exp (if present) is a number strictly after now; iat (if present) is a number
-   and the token is not older than the maximum age [ma] (a maximum <= 0, which only
+   issued not before now - [ma] (int64 subtraction, the identity for any real clock,
+   see C11_times_valid_plain), i.e. not older than the maximum age (a maximum <= 0, which only
    SEC_TOKEN_MAX_AGE can produce, switches the age limit off).  [ma] is
    resolved_max_age e = TokenMaxAge if positive, else SEC_TOKEN_MAX_AGE in
    seconds if it parses, else the default *)
 Definition times_valid (now ma : Z) (c : claims) : Prop :=
   (j_exp c = JAbsent \/ exists z, j_exp c = JNum z /\ now < f2i z) /\
-  (j_iat c = JAbsent \/ exists z, j_iat c = JNum z /\ (ma <= 0 \/ wrap64 (now - f2i z) <= ma)).
+  (j_iat c = JAbsent \/ exists z, j_iat c = JNum z /\ (ma <= 0 \/ wrap64 (now - ma) <= f2i z)).
 
 (* [tok] = header.payload is a token issued under a signing key [key] the server
    holds, valid at [now], whose subject is the non-empty string [sub] *)
